@@ -46,10 +46,48 @@ var calmSizes = []int{0, 1, headerLen, 125, 126, 65535, 65536, 1, 0, 125, 126, 1
 // writers first push enough to block the relay's writer, then short messages that queue up),
 // big (the 10 MiB limit from both sides).
 func genScenario(r *lib.Rng, cp int, i int) Case {
+	return genScenarioKind(r, cp, i, -2, fmt.Sprintf("c5-%d-%d", cp, i))
+}
+
+// documentedCap is what the relay's documentation promises for a configured BufferSize:
+// the value itself within 1..512, otherwise 256.
+func documentedCap(conf int) int {
+	if conf < 1 || conf > 512 {
+		return 256
+	}
+	return conf
+}
+
+// genScenarioKind: kind -2 = chosen from i as usual, -1 = burst, otherwise i is replaced so that the
+// usual choice yields calm (1) or storm (3).
+func genScenarioKind(r *lib.Rng, cp int, i int, kind int, topic string) Case {
 	g := &gen{r: r, cp: cp, seq: map[uint64]int{}}
-	c := Case{Cap: cp, Topic: fmt.Sprintf("c5-%d-%d", cp, i)}
+	c := Case{Cap: cp, Conf: cp, Topic: topic}
 	rw := []string{"read", "write"}
+	if kind >= 0 {
+		i = kind
+	}
 	switch {
+	case kind == -1:
+		c.Kind = "burst"
+		// 100-200 short messages back to back to readers that never stop reading: far fewer than the
+		// queue holds, so everything must arrive and nobody may be cut
+		w := g.join([][]string{rw, {"write"}}[r.Intn(2)], false)
+		g.join([]string{"read"}, false)
+		if r.Bool() {
+			g.join(rw, false)
+		}
+		g.send(w, 125)
+		g.ops = append(g.ops, Op{K: "storm-begin"})
+		n := r.Range(100, 200)
+		if n > cp-10 {
+			n = cp - 10
+		}
+		for k := 0; k < n; k++ {
+			g.send(w, smallSizes[r.Intn(len(smallSizes))])
+		}
+		g.ops = append(g.ops, Op{K: "storm-end"})
+		g.send(w, 126)
 	case i == 0:
 		c.Kind = "big"
 		w1 := g.join(rw, false)
